@@ -1080,3 +1080,68 @@ pub fn chunks_not_exact_index_panics(s: &[u8]) -> Vec<i16> {
     }
     v
 }
+
+// first-match search loops: `r = D; for (i, x) in s.iter().enumerate() { if P(x) { r = i; break } }` is position(P).unwrap_or(D)
+pub fn search_loop_safe(s: &[u32], t: u32) -> u32 {
+    if s.is_empty() {
+        return 0;
+    }
+    let mut r = s.len() - 1;
+    for (i, &x) in s.iter().enumerate() {
+        if x > t {
+            r = i;
+            break;
+        }
+    }
+    s[r]
+}
+pub fn search_loop_default_len_panics(s: &[u32], t: u32) -> u32 {
+    let mut r = s.len();
+    for (i, &x) in s.iter().enumerate() {
+        if x > t {
+            r = i;
+            break;
+        }
+    }
+    s[r]
+}
+pub fn search_loop_plus_one_panics(s: &[u32], t: u32) -> u32 {
+    if s.is_empty() {
+        return 0;
+    }
+    let mut r = s.len() - 1;
+    for (i, &x) in s.iter().enumerate() {
+        if x > t {
+            r = i + 1;
+            break;
+        }
+    }
+    s[r]
+}
+pub fn search_loop_minus_one_panics(s: &[u32], t: u32) -> u32 {
+    if s.is_empty() {
+        return 0;
+    }
+    let mut r = s.len() - 1;
+    for (i, &x) in s.iter().enumerate() {
+        if x > t {
+            r = i;
+            break;
+        }
+    }
+    // the first element may match
+    s[r - 1]
+}
+pub fn search_loop_other_slice_panics(s: &[u32], o: &[u32], t: u32) -> u32 {
+    if o.is_empty() {
+        return 0;
+    }
+    let mut r = o.len() - 1;
+    for (i, &x) in s.iter().enumerate() {
+        if x > t {
+            r = i;
+            break;
+        }
+    }
+    o[r]
+}
